@@ -71,6 +71,8 @@ def _worker(args):
     prop, tables, wseed, n_sessions, n_events, profile, focus = args
     from . import check_coord as CC2
     fails, stats = [], ({"focus": focus} if focus else {})
+    if prop == "C05":
+        CC2.settings_of = CC2.settings_rewards_as_written      # the rewards are the configured values
     rng = random.Random(wseed)
     drv = Driver()
     try:
@@ -84,6 +86,12 @@ def _worker(args):
             CC2.directed_races(drv, rng, tables, lambda t, s_, d, r: fails.append((sorted(t), s_, d, r)), stats, max(4, n_sessions // 10))
         if prop == "C09":
             CC2.twin_sessions(drv, rng, tables, lambda t, s_, d, r: fails.append((sorted(t), s_, d, r)), stats, max(4, n_sessions // 5))
+        if prop == "C07":
+            CC2.directed_late_joiner(drv, rng, tables, lambda t, s_, d, r: fails.append((sorted(t), s_, d, r)), stats, max(4, n_sessions // 20))
+        if prop in ("C10", "C18", "C01"):
+            CC2.directed_shared_block(drv, rng, tables, lambda t, s_, d, r: fails.append((sorted(t), s_, d, r)), stats, max(4, n_sessions // 20))
+        if prop in ("C04", "C18", "C01"):
+            CC2.directed_defender(drv, rng, tables, lambda t, s_, d, r: fails.append((sorted(t), s_, d, r)), stats, max(4, n_sessions // 20))
     finally:
         drv.close()
     stats.pop("focus", None)
@@ -107,8 +115,16 @@ def main(prop, tier):
             for t in tags:
                 other[t] = other.get(t, 0) + 1
 
-    if info.get("build_ok") and info.get("tables") and tier != "quick" and prop in ("C01", "C04"):
-        CC.probe_all_attackers_goal(on_fail, stats)
+    if info.get("build_ok") and info.get("tables"):
+        # probes of the real code alone (inputs the model's configuration / JSON domain does not contain)
+        if prop in ("C01", "C04"):
+            CC.probe_all_attackers_goal(on_fail, stats)
+        if prop in ("C07", "C16"):
+            CC.probe_unencodable_name(on_fail, stats)
+        if prop in ("C01", "C09"):
+            CC.probe_surrogate_echo(on_fail, stats)
+        if prop in ("C10", "C18"):
+            CC.probe_leave_unwritable_store(on_fail, stats)
     if info.get("build_ok") and info.get("tables") and tier != "quick":
         # thorough: 12 worker processes, each with its own driver and PRNG stream
         from concurrent.futures import ProcessPoolExecutor
@@ -121,6 +137,8 @@ def main(prop, tier):
                 for tags, sig, desc, rep in fails:
                     on_fail(set(tags), sig, desc, rep)
     elif info.get("build_ok") and info.get("tables"):
+        if prop == "C05":
+            CC.settings_of = CC.settings_rewards_as_written      # the rewards are the configured values
         rng = random.Random(1000003 * seed() + int(prop[1:]) * 7 + 1)
         drv = Driver()
         try:
@@ -131,15 +149,17 @@ def main(prop, tier):
             CC.run_sessions(drv, rng, info["tables"]["defender"], on_fail, stats, n_sessions, n_events, PROFILES[prop])
             for share, prof in EXTRA.get(prop, []):
                 CC.run_sessions(drv, rng, info["tables"]["defender"], on_fail, stats, max(1, int(n_sessions * share)), n_events, prof)
-            if prop in ("C01", "C04"):
-                CC.probe_all_attackers_goal(on_fail, stats)
-            if prop in ("C07", "C16"):
-                CC.probe_unencodable_name(on_fail, stats)
             if prop in DIRECTED:
                 CC.directed_sessions(drv, rng, info["tables"]["defender"], on_fail, stats, 16)
                 CC.directed_races(drv, rng, info["tables"]["defender"], on_fail, stats, 24)
             if prop == "C09":
                 CC.twin_sessions(drv, rng, info["tables"]["defender"], on_fail, stats, 40)
+            if prop in ("C10", "C18", "C01"):
+                CC.directed_shared_block(drv, rng, info["tables"]["defender"], on_fail, stats, 10)
+            if prop == "C07":
+                CC.directed_late_joiner(drv, rng, info["tables"]["defender"], on_fail, stats, 10)
+            if prop in ("C04", "C18", "C01"):
+                CC.directed_defender(drv, rng, info["tables"]["defender"], on_fail, stats, 8)
         finally:
             drv.close()
     bk = stats.get("by_kind", {})
